@@ -18,6 +18,8 @@ use std::sync::atomic::Ordering;
 use super::ioslice;
 use alloc_cache::AllocCache;
 pub use anchor::Anchor;
+#[cfg(feature = "pkhuong_woodpile_verif")]
+pub use anchor::verif;
 
 /// A [`ByteArena`] manages allocation caches (bump pointer regions).
 ///
